@@ -14,7 +14,7 @@ RULE = ("sequences of 2..6 back-to-back SDO client transfers (upload / download,
         "client's (command, size, toggle, last marking, data), user buffer content (exact-size buffer under ASan), busy refusal, and after "
         "completion: client idle, no client timer left (pool occupancy), the next transfer unaffected; non-trivial = sequence with >= 1 "
         "segmented transfer or >= 1 injected server deviation; distinct by script")
-ASSUMPTIONS = ["a timeout beyond the longest time the tick conversion supports (65535 s) is limited to 65535 s plus its milliseconds", "abort codes for locally detected protocol errors are not constrained (non-zero, exactly one callback)",
+ASSUMPTIONS = ["a timeout below one timer tick (also 0) expires with the next tick", "a timeout beyond the longest time the tick conversion supports (65535 s) is limited to 65535 s plus its milliseconds", "abort codes for locally detected protocol errors are not constrained (non-zero, exactly one callback)",
                "the upload buffer size equals the object size for conforming transfers", "processing follows each tick"]
 VARIANTS = ["asan", "asan2"]
 
@@ -25,12 +25,12 @@ def mux(idx, sub):
     return bytes([idx & 0xFF, idx >> 8, sub])
 
 
-HUGE = [100, 500, 65535000, 65535900, 65536000, 65536100, 65537000, 70000000, 131072100, 4294967200]
+HUGE = [0, 50, 99, 100, 500, 65535000, 65535900, 65536000, 65536100, 65537000, 70000000, 131072100, 4294967200]
 
 
 def ticks_of(ms, freq):
     """The 32-bit timeout in ms, limited to the longest time the conversion supports (65535 s plus the milliseconds)."""
-    return min(ms // 1000, 65535) * freq + (ms % 1000) * freq // 1000
+    return max(1, min(ms // 1000, 65535) * freq + (ms % 1000) * freq // 1000)      # a time below the timer resolution lasts one tick
 
 
 class Transfer:
